@@ -517,12 +517,17 @@ func init() {
 		r := x.vc.Fresh("indexb", SInt)
 		x.vc.Assert(And(Ge(r, IntLit(-1)), Lt(r, Ite(Eq(sLen(s), IntLit(0)), IntLit(0), sLen(s)))))
 		x.vc.Assert(Implies(Ge(r, IntLit(0)), Eq(x.strAt(s, r), c)))
+		// relation with strings.Count for a one-byte separator (trusted): bytecount(s, c) is the
+		// number of occurrences of byte c in s; none iff IndexByte is -1, and the text after the
+		// first occurrence holds one occurrence less
+		bc := x.vc.Fun("uf|bytecount", []Sort{SStr, SInt}, SInt)
+		cnt := app(SInt, bc, s, c)
+		x.vc.Assert(Ge(cnt, IntLit(0)))
+		x.vc.Assert(Eq(Eq(r, IntLit(-1)), Eq(cnt, IntLit(0))))
+		rest := x.strSub(s, Add(r, IntLit(1)), sLen(s))
+		x.vc.Assert(Implies(Ge(r, IntLit(0)), Eq(app(SInt, bc, rest, c), Sub(cnt, IntLit(1)))))
 		return VTerm{r}, true
 	})
-	// strings.Builder: a local accumulator; its methods touch nothing but the builder itself
-	for _, n := range []string{"WriteString", "WriteByte", "WriteRune", "Write", "Len", "String", "Grow", "Reset", "Cap"} {
-		libFrames["(*strings.Builder)."+n] = map[string]Sort{}
-	}
 	regModel("strings.IndexRune", func(x *Exec, fr *Frame, st *State, a []Value, pos token.Pos, rt types.Type) (Value, bool) {
 		s := tOf(a[0])
 		r := x.vc.Fresh("indexr", SInt)
@@ -562,6 +567,12 @@ func init() {
 	})
 	regModel("strings.Count", func(x *Exec, fr *Frame, st *State, a []Value, pos token.Pos, rt types.Type) (Value, bool) {
 		s := tOf(a[0])
+		if sep, ok := x.constString(tOf(a[1])); ok && len(sep) == 1 {
+			bc := x.vc.Fun("uf|bytecount", []Sort{SStr, SInt}, SInt)
+			r := app(SInt, bc, s, IntLit(int64(sep[0])))
+			x.vc.Assert(And(Ge(r, IntLit(0)), Le(r, sLen(s))))
+			return VTerm{r}, true
+		}
 		r := x.vc.Fresh("count", SInt)
 		x.vc.Assert(And(Ge(r, IntLit(0)), Le(r, Add(sLen(s), IntLit(1)))))
 		return VTerm{r}, true
